@@ -356,6 +356,18 @@ def tr_expr(cx, env, e):
             a, ta, pa = tr_expr(cx, env, e.args[0])
             if ta == 'int':
                 return a, 'int', pa
+        if isinstance(f, ast.Name) and f.id == '__readN' and len(e.args) == 3:
+            a, ta, pa = tr_expr(cx, env, e.args[0])
+            b, tb, pb = tr_expr(cx, env, e.args[1])
+            c, tc, pc = tr_expr(cx, env, e.args[2])
+            if (ta, tb, tc) == ('tup', 'int', 'int'):
+                v = cx.tmp()
+                return v, 'tup', pa + pb + pc + ['let %s ← Py.readN %s %s %s' % (v, a, b, c)]
+        if isinstance(f, ast.Name) and f.id == 'ord' and len(e.args) == 1 and 'ord' not in env:
+            a, ta, pa = tr_expr(cx, env, e.args[0])
+            if ta == 'tup':
+                v = cx.tmp()
+                return v, 'int', pa + ['let %s ← Py.ord %s' % (v, a)]
         if isinstance(f, ast.Name) and f.id == 'list' and len(e.args) == 1:
             a, ta, pa = tr_expr(cx, env, e.args[0])
             if ta == 'tup':
@@ -614,6 +626,12 @@ def tr_block(cx, env, stmts, ret_ty, tail):
         if s.orelse:
             raise Unsupported('loop else')
         early = False
+        tail_break = None
+        if (isinstance(s, ast.While) and s.body and isinstance(s.body[-1], ast.If) and not s.body[-1].orelse
+                and len(s.body[-1].body) == 1 and isinstance(s.body[-1].body[0], ast.Break)):
+            # `while c: ...; if d: break` (the break is the last thing the body does): leave the loop when d holds
+            tail_break = s.body[-1].test
+            s = ast.While(test=s.test, body=s.body[:-1], orelse=s.orelse)
         for n in ast.walk(s):
             if isinstance(n, (ast.Break, ast.Continue)):
                 raise Unsupported('break/continue inside a loop')
@@ -684,6 +702,11 @@ def tr_block(cx, env, stmts, ret_ty, tail):
             c, tc, pc = tr_expr(cx, env_in, s.test)
             c = as_bool(c, tc)
             rec = lambda e2: ['%s %s fuel_ %s' % (fname, rec_args, ' '.join(threaded))]
+            if tail_break is not None:
+                def rec(e2, _fname=fname, _args=rec_args, _thr=threaded):
+                    d, td, pd = tr_expr(cx, e2, tail_break)
+                    return pd + ['if %s then pure %s' % (as_bool(d, td), tup_of(_thr) if _thr else '()'),
+                                 'else %s %s fuel_ %s' % (_fname, _args, ' '.join(_thr))]
             body = tr_block(cx, env_in, s.body, ret_ty, rec)
             if pc:
                 # the condition reads the tuple (may raise IndexError): evaluated inside the loop function
@@ -749,10 +772,60 @@ def descend(body, steps):
     return body
 
 
+class StreamReads(ast.NodeTransformer):
+    """`for V in readFromStream(<stream>, N, options): if isinstance(V, SubstrateUnderrunError): yield V`
+    (the decoder's way of asking the stream for N octets, handing an underrun to the caller) becomes
+    `V = __readN(<stream>, pos_, N); pos_ = pos_ + N` over the octets of the complete input: `Py.readN` raises
+    SubstrateUnderrunError when fewer than N octets are left, which is what the one-shot decoder turns a yielded
+    underrun into."""
+
+    def __init__(self, stream):
+        self.stream = stream
+
+    def rewrite(self, body):
+        out = []
+        for st in body:
+            r = self.visit(st)
+            out.extend(r if isinstance(r, list) else [r])
+        return out
+
+    def generic_visit(self, node):
+        for field in ('body', 'orelse'):
+            v = getattr(node, field, None)
+            if isinstance(v, list):
+                setattr(node, field, self.rewrite(v))
+        for h in getattr(node, 'handlers', []) or []:
+            h.body = self.rewrite(h.body)
+        return node
+
+    def visit_For(self, node):
+        it = node.iter
+        if (isinstance(it, ast.Call) and isinstance(it.func, ast.Name) and it.func.id == 'readFromStream' and len(it.args) == 3
+                and isinstance(it.args[0], ast.Name) and it.args[0].id == self.stream and isinstance(node.target, ast.Name)
+                and not node.orelse and len(node.body) == 1 and unparse(node.body[0]).strip() ==
+                'if isinstance(%s, SubstrateUnderrunError):\n    yield %s' % (node.target.id, node.target.id)):
+            v = node.target.id
+            n = unparse(it.args[1])
+            return ast.parse('%s = __readN(%s, pos_, %s)\npos_ = pos_ + %s' % (v, self.stream, n, n)).body
+        return self.generic_visit(node)
+
+
 def slice_body(fn, spec):
     body = list(fn.body)
     if 'block' in spec:
         body = descend(body, spec['block'])
+    if 'inline_except' in spec:
+        # `try: x = cache[k] / except KeyError: <compute x>`: the handler is what computes; the cache is memoisation
+        out = []
+        for st in body:
+            if (isinstance(st, ast.Try) and len(st.handlers) == 1 and dotted(st.handlers[0].type) == spec['inline_except']
+                    and not st.orelse and not st.finalbody):
+                out.extend(st.handlers[0].body)
+            else:
+                out.append(st)
+        body = out
+    if 'stream' in spec:
+        body = [ast.parse('pos_ = 0').body[0]] + StreamReads(spec['stream']).rewrite(body)
     if 'after' in spec:
         idx = None
         for i, s in enumerate(body):
